@@ -5,7 +5,7 @@ C12 (and C06/C07) model: the *frame* of `ClipperOffset::ExecuteInternal` / `DoGr
 The geometry (`OffsetPolygon`, `OffsetOpenJoined`, `OffsetOpenPath`, the single-point branch, the final union) is not
 modelled (a fuller frame, down to the primitives emitted per vertex, is Model/OffsetFrame.lean of the C06/C07 slice;
 this one keeps only the members whose life time matters for C12).  No delta callback (`deltaCallback64_ == nullptr`).  `delta` is an integer here: the frame only negates it,
-takes its absolute value and compares it with 1 and 0.5.  Core Lean only.
+takes its absolute value and compares it with 1 and 0.5 (`|delta| < 0.5` is `delta = 0`).  Core Lean only.
 -/
 import ClipperVerif.Spec.Basic
 import ClipperVerif.Spec.Enums
@@ -107,11 +107,16 @@ structure Frame where
 
 def usesRound (jt : JoinType) (et : EndType) : Bool := decide (jt = .round) || decide (et = .round)
 
-/-- the loop over `group.paths_in` in `DoGroupOffset` (clipper.offset.cpp:469-532) -/
+/-- the loop over `group.paths_in` in `DoGroupOffset` (clipper.offset.cpp:483-535) -/
 def pathLoop (g : Group) : OState → Paths → OState × List Frame
   | st, [] => (st, [])
   | st, p :: ps =>
-    if p.length = 1 then
+    if p.length = 0 then
+      -- `if (pathLen == 0) continue;` : nothing is read, no member is written
+      let f : Frame := { kind := .skipped, groupDelta := st.groupDelta, joinType := g.joinType, endType := .polygon, steps := none }
+      let (st', fs) := pathLoop g st ps
+      (st', f :: fs)
+    else if p.length = 1 then
       -- single point: `if (group_delta_ < 1) continue;` else circle/square from group.join_type, abs_delta, steps_per_rad_
       let f : Frame := { kind := (if st.groupDelta < 1 then .skipped else .point), groupDelta := st.groupDelta,
                          joinType := g.joinType, endType := .polygon,
@@ -119,21 +124,21 @@ def pathLoop (g : Group) : OState → Paths → OState × List Frame
       let (st', fs) := pathLoop g st ps
       (st', f :: fs)
     else
-      -- `if ((pathLen == 2) && (group.end_type == EndType::Joined)) end_type_ = …` : assignment to the *member*
-      let st1 : OState := if p.length = 2 ∧ g.endType = .joined then
-                   { st with endType := (if g.joinType = .round then .round else .square) } else st
+      -- `end_type_ = group.end_type; if ((pathLen == 2) && (group.end_type == EndType::Joined)) end_type_ = …` (member)
+      let st1 : OState := { st with endType := (if p.length = 2 ∧ g.endType = .joined then
+                   (if g.joinType = .round then .round else .square) else g.endType) }
       let k : Kind := if st1.endType = .polygon then .polygon else if st1.endType = .joined then .joined else .openPath
       let f : Frame := { kind := k, groupDelta := st1.groupDelta, joinType := st1.joinType, endType := st1.endType,
                          steps := (if usesRound st1.joinType st1.endType then st1.stepsFor else none) }
       let (st', fs) := pathLoop g st1 ps
       (st', f :: fs)
 
-/-- `DoGroupOffset` up to the path loop (clipper.offset.cpp:433-466) -/
+/-- `DoGroupOffset` up to the path loop (clipper.offset.cpp:446-480) -/
 def groupHeader (st : OState) (g : Group) : OState :=
   let st1 : OState :=
     if g.endType = .polygon then
-      let d := if g.lowest.isNone then iabs st.delta else st.delta      -- `delta_ = std::abs(delta_)` : member
-      { st with delta := d, groupDelta := (if g.isReversed then -d else d) }
+      let d := if g.lowest.isNone then iabs st.delta else st.delta      -- the local `d`; `delta_` is left alone
+      { st with groupDelta := (if g.isReversed then -d else d) }
     else { st with groupDelta := iabs st.delta }
   let st2 := { st1 with joinType := g.joinType, endType := g.endType }
   if g.joinType = .round ∨ g.endType = .round then { st2 with stepsFor := some st2.groupDelta } else st2
@@ -149,10 +154,15 @@ def groupLoop : OState → List Group → OState × List (List Frame)
     let (st2, fss) := groupLoop st1 gs
     (st2, fs :: fss)
 
-/-- `ExecuteInternal(delta)` for `|delta| ≥ 0.5` (integer: `delta ≠ 0`), frame only: `delta_ = delta`, then the groups.
+/-- `ExecuteInternal(delta)`, frame only.  `|delta| < 0.5` (integer: `delta = 0`): the groups' paths are copied (Polygon
+groups only), no path is offset and no member of the frame is written.  Otherwise `delta_ = delta`, then the groups.
 `st` is the object's state left by whatever happened before. -/
 def executeFrames (st : OState) (delta : Int) (gs : List Group) : OState × List (List Frame) :=
-  groupLoop { st with delta := delta } gs
+  if delta = 0 then (st, []) else groupLoop { st with delta := delta } gs
+
+/-- what the `|delta| < 0.5` branch puts into the raw solution: the (duplicate-stripped) paths of the Polygon groups -/
+def insignificantCopy (gs : List Group) : Paths :=
+  (gs.filter (fun g => decide (g.endType = .polygon))).flatMap (·.pathsIn)
 
 /-- `delta_` as group `g` sees it when nothing came before it -/
 def refDelta (delta : Int) (g : Group) : Int :=
@@ -170,7 +180,9 @@ def refEndType (g : Group) (n : Nat) : EndType :=
 length enters (the frame a fresh object uses when `p` is the group's only path — `refFrame_is_alone` in Props/C12Offset). -/
 def refFrame (delta : Int) (g : Group) (p : Path) : Frame :=
   let gd := refGroupDelta delta g
-  if p.length = 1 then
+  if p.length = 0 then
+    { kind := .skipped, groupDelta := gd, joinType := g.joinType, endType := .polygon, steps := none }
+  else if p.length = 1 then
     { kind := (if gd < 1 then .skipped else .point), groupDelta := gd, joinType := g.joinType, endType := .polygon,
       steps := (if g.joinType = .round then some gd else none) }
   else
